@@ -166,7 +166,13 @@ impl BuildJob<'_> {
         let newstamp = sf.read_stamp(ptx.state().env())?;
         if sf.is_generated()
             && !newstamp.is_missing()
-            && (sf.is_override || Stamp::detect_override(sf.stamp.as_ref().unwrap(), &newstamp))
+            // (No recorded stamp: redo was killed before it recorded having produced
+            // anything here, so a file that exists now is not ours.)
+            && (sf.is_override
+                || sf
+                    .stamp
+                    .as_ref()
+                    .map_or(true, |old| Stamp::detect_override(old, &newstamp)))
         {
             let nice_t = nice(ptx.state().env(), &t).map_err(RedoError::opaque_error)?;
             state::warn_override(&nice_t);
